@@ -436,12 +436,32 @@ def prove(claim, what='property', robust=()):
             sm = _reconstruct(CTX.model(), neg)
             if sm is not None:
                 return sm
+        # first only the definitions of variables that occur in the claim, then all of them
+        if neg:
+            ids = _var_ids(neg[0])
+            rel = [a for a in lz if _var_ids(a.arg(0)) & ids]
+            if rel and len(rel) < len(lz):
+                if CTX.check(*(neg + rel)) == 'unsat':
+                    return None
         r = CTX.check(*(neg + lz))
         if r == 'unsat':
             return None
     if r == 'sat':
         return CTX.model()
     raise Inconclusive(what)
+
+
+def _var_ids(e):
+    seen, out, todo = set(), set(), [e]
+    while todo:
+        x = todo.pop()
+        if x.get_id() in seen:
+            continue
+        seen.add(x.get_id())
+        if z3.is_const(x) and x.decl().kind() == z3.Z3_OP_UNINTERPRETED:
+            out.add(x.get_id())
+        todo.extend(x.children())
+    return out
 
 
 def _reconstruct(m, extra=()):
@@ -817,6 +837,10 @@ class S:
                     if branch(self.e < 0):
                         return -INF
                     return float('nan')
+        if CTX is not None and getattr(CTX, 'lazy_quotients', False):
+            from . import logp as _logp
+            if _logp.is_pos(b):
+                return S(_logp.quotient(_real(self.e), _real(b)), self._pyres(o))
         return S(_real(self.e) / _real(b), self._pyres(o))
 
     def __rtruediv__(self, o):
